@@ -407,7 +407,7 @@ func c10Run(c c10Case) (v vVerdict) {
 	writing := false
 	failNext := ""
 	nchan := c.Nchan
-	concurrentStops, postSelfStops, restarts, forced, garbage := 0, 0, 0, 0, 0
+	concurrentStops, postSelfStops, restarts, forced, garbage, failedStarts := 0, 0, 0, 0, 0, 0
 	defer func() {
 		if e.udpStop != nil {
 			close(e.udpStop)
@@ -652,8 +652,24 @@ func c10Run(c c10Case) (v vVerdict) {
 				continue
 			}
 			var werr error
-			if e.queue(func() { werr = e.ds.WriteControl(&WriteControlConfig{Request: "START", WriteLJH22: true, WriteLJH3: op.N%2 == 1, Path: root}) }, 8*time.Second) && werr == nil {
+			wpath := root
+			if op.Kind == "longpath" {
+				// a START that fails in its last step (the run directory fits into PATH_MAX, the experiment-state file name does not):
+				// whatever it leaves behind, Stop must still end with writing stopped, no goroutine and no open file left
+				wpath = filepath.Join(root, "L")
+				for len(wpath) < 4050-201 {
+					wpath = filepath.Join(wpath, strings.Repeat("x", 200))
+				}
+				if pad := 4050 - len(wpath) - 1; pad > 0 {
+					wpath = filepath.Join(wpath, strings.Repeat("y", pad))
+				}
+				failedStarts++
+			}
+			if e.queue(func() { werr = e.ds.WriteControl(&WriteControlConfig{Request: "START", WriteLJH22: true, WriteLJH3: op.N%2 == 1, Path: wpath}) }, 8*time.Second) && werr == nil {
 				writing = true
+			}
+			if op.Kind == "longpath" {
+				time.Sleep(3 * time.Millisecond) // let a record or two pass
 			}
 		case "wstop":
 			if !running || !writing {
@@ -748,6 +764,9 @@ func c10Run(c c10Case) (v vVerdict) {
 	if garbage > 0 {
 		v.Classes = append(v.Classes, "garbage-datagram")
 	}
+	if failedStarts > 0 {
+		v.Classes = append(v.Classes, "write-start-failing-late")
+	}
 	v.Classes = append(v.Classes, "source-"+c.Source)
 	return v
 }
@@ -787,7 +806,11 @@ func c10Gen(t *rapid.T) c10Case {
 			case 0:
 				c.Ops = append(c.Ops, c10Op{Op: "request"})
 			case 1, 2:
-				c.Ops = append(c.Ops, c10Op{Op: "wstart", N: rapid.IntRange(0, 1).Draw(t, "wtypes")})
+				wop := c10Op{Op: "wstart", N: rapid.IntRange(0, 1).Draw(t, "wtypes")}
+				if rapid.IntRange(0, 4).Draw(t, "wlong") == 0 {
+					wop.Kind = "longpath"
+				}
+				c.Ops = append(c.Ops, wop)
 			case 3:
 				c.Ops = append(c.Ops, c10Op{Op: "wstop"})
 			case 4:
